@@ -27,6 +27,7 @@ fn main() {
         "mostrecent" => drivers::mostrecent::run(&args),
         "codec" => drivers::codec::run(&args),
         "shapes" => drivers::shapes::run(&args),
+        "sock" => drivers::sock::run(&args),
         "idmath-one" => drivers::idmath::run_one(&args),
         other => {
             eprintln!("unknown driver {other}");
